@@ -66,7 +66,10 @@ def run_threads(params, ch):
         sc.locks = list(find_locks(s.dev, io).values())
         s.env.sched = sc
         for i in range(n):
-            sc.spawn(lambda i=i: s.op(('gen-start', 'hold%d' % i, {'decode': False})), name='open%d' % i)
+            kw = {'decode': False}
+            if params.get('timeouts'):
+                kw.update(transport_timeout_s=[0.05, 0][i % 2], read_timeout_s=5.0)
+            sc.spawn(lambda i=i, kw=kw: s.op(('gen-start', 'hold%d' % i, dict(kw))), name='open%d' % i)
         results = sc.run()
         s.env.sched = None
         if sc.verdict and sc.verdict.startswith('error'):
@@ -215,6 +218,8 @@ def _parts(tier):
                         what='3 concurrent opens, line-level scheduling points', bound='preemptions <= 1'))
         out.append(Part('threads-2-opcodes', [{'start': st, 'n': 2, 'opcodes': True} for st in (0, 2**32 - 2)], run_threads, {'sched': 1, 'dev-order': 0}, split=2,
                         what='2 concurrent opens, bytecode-level scheduling points in id allocation', bound='preemptions <= 1'))
+    out.append(Part('threads-2-lines-bounded-lock-waits', [{'start': st, 'n': 2, 'timeouts': True} for st in (0, 2**32 - 2)], run_threads, {'sched': pb, 'dev-order': 0, 'lock-timeout': 1}, split=2,
+                    what='2 concurrent opens with finite transport timeouts: a lock acquire that is given a timeout may expire while the lock is held', bound='preemptions <= %d, <=1 expired lock wait' % pb))
     out.append(Part('failed-open-overlap', [{'start': st} for st in (STARTS if tier == 'thorough' else (0, 2**32 - 2))], run_failed_overlap, {'sched': pb, 'dev-order': 0}, split=2,
                     what='an open refused by the device fails while another open overlaps it, then a third open', bound='preemptions <= %d' % pb))
     out.append(Part('tasks', [{'start': st, 'n': n} for st in STARTS for n in (2, 3)], run_tasks, {'io-order': None, 'dev-order': None}, split=1,
